@@ -811,7 +811,9 @@ impl IterativeDeepeningSearch {
                 let exec_result = exec_dfs.search_with_execution(root_goal, facts, kb);
                 // Aggregate explored goals
                 let mut final_result = exec_result;
-                final_result.goals_explored += cumulative_goals - final_result.goals_explored;
+                // (the executing run may explore more goals than all probes together)
+                final_result.goals_explored +=
+                    cumulative_goals.saturating_sub(final_result.goals_explored);
                 return final_result;
             }
         }
